@@ -73,6 +73,11 @@ def neg (a : Poly) : Poly := ⟨a.ival.map fun x => red a.size (-x), a.size⟩
 /-- `a << n`: per coefficient, `Bits(v,k)<<n` when k > 0, Python int shift when k = 0 -/
 def shl (a : Poly) (n : Nat) : Poly := ⟨a.ival.map fun (x : Int) => red a.size (x * (2 ^ n : Int)), a.size⟩
 def shr (a : Poly) (n : Nat) : Poly := ⟨a.ival.map fun (x : Int) => red a.size (Int.shiftRight x n), a.size⟩
+/-- `a << n` for any Python int n: a negative count raises as soon as one coefficient is shifted -/
+def shlI (a : Poly) (n : Int) : Except Err Poly :=
+  if n < 0 ∧ a.ival ≠ [] then .error "ValueError:negative shift count" else .ok (a.shl n.toNat)
+def shrI (a : Poly) (n : Int) : Except Err Poly :=
+  if n < 0 ∧ a.ival ≠ [] then .error "ValueError:negative shift count" else .ok (a.shr n.toNat)
 
 /-- Python list indexing `l[i]` -/
 def pyGet (l : List Int) (i : Int) : Except Err Int :=
@@ -127,15 +132,36 @@ def setSlice (a : Poly) (start stop step : Option Int) (v : RVal) : Except Err P
   let r ← a.indices start stop step
   a.setIdx r v
 
+/-- the mutating API as data: `a[i]=v`, `a[list]=v`, `a[s:e:st]=v`, `a.dim=d` -/
+inductive MutOp
+  | setInt (i : Int) (v : Int)
+  | setIdx (idx : List Int) (v : RVal)
+  | setSlice (start stop step : Option Int) (v : RVal)
+  | setDim (d : Nat)
+
+def applyOp (a : Poly) : MutOp → Except Err Poly
+  | .setInt i v => a.setInt i v
+  | .setIdx idx v => a.setIdx idx v
+  | .setSlice s e st v => a.setSlice s e st v
+  | .setDim d => a.setDim d
+
+/-- a history of mutations of one object; the first refused one ends it -/
+def applyOps (a : Poly) : List MutOp → Except Err Poly
+  | [] => .ok a
+  | o :: os => do let a' ← a.applyOp o; applyOps a' os
+
 /-- `a // b` -/
 def concat (a b : Poly) : Poly := ⟨a.ival ++ b.ival, a.size⟩
 
 /-- `a.split(newsize,bigend)` -/
 def split (a : Poly) (newsize : Nat) (bigend : Bool := false) : Except Err Poly :=
   if newsize = a.size then .ok a
-  else if a.size = 0 then .error "AttributeError:int has no split"
   else do
-    let parts ← a.ival.mapM fun x => (Bits.ofNatSz x.toNat a.size).split newsize bigend
+    -- `for x in self: l.extend(x.split(newsize,bigend))`: over Z the elements are ints (no `split`), so only the
+    -- empty vector gets through
+    let parts ← a.ival.mapM fun x =>
+      if a.size = 0 then (.error "AttributeError:int has no split" : Except Err (List Bits))
+      else (Bits.ofNatSz x.toNat a.size).split newsize bigend
     pure ⟨(parts.flatten.map fun b => red newsize (Int.ofNat b.ival)), newsize⟩
 
 /-- `pack(poly,fmt)` of bits.py applied to a Poly -/
